@@ -98,7 +98,7 @@ theorem attrFactsN_of {ft : Feat} {e : BEnv} {Γ : Ctx} {m : XmlMeta} {ci : Clas
 
 /-- which of the two kinds of element var, with its default -/
 inductive ElemKindN (Γ : Ctx) (m : XmlMeta) (var : XmlVar) : Prop
-  | prim (t : PT) (hc : var.clazz = none) (ht : var.types = [.prim t])
+  | prim (t : PT) (hc : var.clazz = none) (hp : primTypeOf var = some t) (ht : var.types = [.prim t])
       (hd : if var.tokens || var.listElement then
               var.default = .listFactory ∧ ¬ (var.tokens = true ∧ var.listElement = true ∧ var.nillable = true)
             else scalarDefault var.default t = true ∧ (var.nillable = true → var.default = .none))
@@ -161,7 +161,7 @@ theorem elemFactsN_of {ft : Feat} {Γ : Ctx} {m : XmlMeta} {ci : ClassInfo} {var
       | some t =>
         obtain ⟨htp, _⟩ := primTypeOf_some hpt
         simp only [hpt] at hkind
-        refine ElemKindN.prim t hcl htp ?_
+        refine ElemKindN.prim t hcl hpt htp ?_
         by_cases hb : var.tokens = true ∨ var.listElement = true
         · have hb2 : (var.tokens || var.listElement) = true := by simpa using hb
           simp only [hb, if_true, Bool.and_eq_true, decide_eq_true_eq, Bool.not_eq_true'] at hkind
